@@ -15,6 +15,14 @@ from mc.props.c01 import LangDB
 
 FIXPOINT_PASSES = ("fix_nesting", "fix_paragraphs", "remove_breaking_returns")
 
+# line breaks at every position of every inline wrapper inside every block container (remove_breaking_returns works towards
+# a fixed point over exactly these shapes)
+BR_OUTER = {"none": "%s\n", "div": "<div>%s</div>\n", "div-div": "<div><div>%s</div></div>\n", "center": "<center>%s</center>\n",
+            "cell": "{|\n| %s\n|}\n", "li": "* %s\n", "blockquote": "<blockquote>%s</blockquote>\n", "dd": ": %s\n"}
+BR_INLINE = {"none": "%s", "span": "<span>%s</span>", "i": "<i>%s</i>", "b-span": "<b><span>%s</span></b>", "quote": "''%s''"}
+BR_PATTERN = ["<br/>x", "<br/><br/>x", "x<br/>", "x<br/><br/>", "<br/><br/><br/>", "a<br/><br/>b", "<br/>x<br/><br/>", "<br/><br/><br/>x<br/>y"]
+BR_AROUND = {"alone": "%s", "between": "intro\n\n%s\noutro\n"}
+
 
 def tree_hash(root):
     out = []
@@ -137,6 +145,7 @@ class CleanExplore(InputProp):
             fams.append(docgrammar.space(tier, name="grammar"))
         except ImportError:
             pass
+        fams.append(Product(sorted(BR_AROUND), sorted(BR_OUTER), sorted(BR_INLINE), BR_PATTERN, name="brwrap"))
         fams.append(Seqs(clean_names, 2, minlen=2, name="clean2"))
         fams.append(Product(clean_names, [c[0] for c in W.CTX], name="clean-ctx"))
         if tier != "quick":
@@ -156,6 +165,8 @@ class CleanExplore(InputProp):
             return self.ctx[c[0]] % c[1]
         if fam == "clean-ctx":
             return self.ctx[c[1]] % self.clean[c[0]]
+        if fam == "brwrap":
+            return BR_AROUND[c[0]] % (BR_OUTER[c[1]] % (BR_INLINE[c[2]] % c[3]))
         if fam == "grammar":
             from mc.gen import docgrammar
             return docgrammar.render(c)
